@@ -63,6 +63,9 @@ MUTS = {
  "attribute spellings: a list attribute keeps the caller's iterable (a one-shot generator is empty when the node is written)":
    [(A, "            value=value if isinstance(value, _Ref) else tuple(value), name=name\n", "            value=value, name=name\n"),
     (A, "        return cls(tuple(value), name) if value is not None else None\n", "        return cls(value, name) if value is not None else None\n")],
+ "attribute spellings: AttrInt64 insists on a Python int (numpy integers rejected at the call)":
+   [(A, "class AttrInt64(Attr[int]):\n    _attribute_proto_type = AttributeProto.INT\n",
+        "class AttrInt64(Attr[int]):\n    _attribute_proto_type = AttributeProto.INT\n\n    def _validate(self):\n        if not isinstance(self._value, (int, _Ref)):\n            raise self._get_pretty_type_exception()\n        super()._validate()\n")],
  "unk_ (one underscore) prefix stripped: a user's symbolic dimension unk_1 is dropped":
    [(S, "lambda x: x.startswith(\"unk__\")", "lambda x: x.startswith(\"unk_\")")],
 }
